@@ -74,7 +74,7 @@ m = {
               "kind_free_text": "deterministic simulation kernel (choice tape from one PRNG, seeded cooperative scheduler, simulated stream/clock/mutexes, fault injection, shrinker, replay) + one world per property"}],
  "checks": checks,
  "not_applicable": sorted(nal, key=lambda x: x["property_id"]),
- "notes": "Exit codes: 0 held, 1 VIOLATION line printed, 2 build/instrumentation/watchdog trouble. VERIF_SEED selects the seed (default 1). Known findings: /verif/known_findings.json.",
+ "notes": "Exit codes: 0 held, 1 VIOLATION line printed (incl. a library call that hangs or kills the worker, confirmed in a fresh process), 2 build/instrumentation trouble or an unconfirmed worker death. VERIF_SEED selects the seed (default 1). Known findings: /verif/known_findings.json (none open; four fixed). Sensitivity: /verif/seeded (276 independently seeded defects, MATRIX.md), false-alarm self-test: /verif/benign (144 correct refactors, MATRIX.md).",
 }
 json.dump(m, open(os.path.join(V, "MANIFEST.json"), "w"), indent=1)
 print("wrote MANIFEST.json with checks:", [c["property_id"] for c in checks])
